@@ -11,7 +11,9 @@ from tla import OUT, ToolError, parse_printed, run_tlc
 
 PROPS = {
     "C02": dict(benches=["chain", "triangle", "fanout"], caps=dict(quick=[1, 2], thorough=[1, 2, 3]),
-                invariants=["CausalDelivery", "WithinCapacity"]),
+                invariants=["CausalDelivery", "WithinCapacity"],
+                # capacities that make the ring buffer wrap at other places (even but not a power of two, odd)
+                extra_caps=dict(laps=dict(quick=[6], thorough=[5, 6, 10]))),
     "C03": dict(benches=["chain", "fanout", "volume", "query", "hier3", "sources"], caps=dict(quick=[1, 2], thorough=[1, 2, 3, 16]),
                 invariants=["ExactlyOnce", "NothingInvented", "WithinCapacity"]),
     "C04": dict(benches=["chain", "triangle", "volume", "query", "saturate", "hier3"],
@@ -167,8 +169,10 @@ def bench_loop(chk, prop, cfg, tier, rng, wd, finish=False):
     nfree = 400 if thorough else 60
     thread_counts = (2, 4, 16) if thorough else (2, 4)
     all_exhausted = True
-    for bn in cfg["benches"]:
-        for cap in cfg["caps"][tier]:
+    pairs = [(bn, cap) for bn in cfg["benches"] for cap in cfg["caps"][tier]] + \
+            [(bn, cap) for bn, caps in cfg.get("extra_caps", {}).items() for cap in caps[tier]]
+    for bn, cap in pairs:
+        if True:
             b = with_cap(BENCHES[bn], cap)
             # 1. TLC: invariants of the property on every schedule of the bench; terminal outcomes
             mod, cf = write_mc(b, wd, emit=True)
